@@ -71,6 +71,12 @@ def c18b(db, res):
                     r = root_of(a)
                     if r is not None and r.get('k') == 'var' and r.get('decl') == 'param':
                         kind = 'field'
+                    elif r is not None and r.get('k') == 'var' and r.get('decl') == 'local':
+                        # a local that is only ever an alias of a long-lived object reached from a parameter (`tx = connp->in_tx;`)
+                        defs_ = [strip(v['init']) for bb, ii, s2 in f.stmts() for d in nodes(s2, lambda y: y.get('k') == 'decl') for v in d['vars'] if v['name'] == r['name'] and v.get('init') is not None]
+                        defs_ += [strip(w['r']) for bb, ii, s2 in f.stmts() for w in nodes(s2, lambda y: y.get('k') == 'assign' and y['op'] == '=' and strip(y['l']).get('k') == 'var' and strip(y['l'])['name'] == r['name'])]
+                        if defs_ and all(d_ is not None and d_.get('k') == 'member' and (root_of(d_) or {}).get('decl') == 'param' for d_ in defs_):
+                            kind = 'field'
                 elif a.get('k') == 'un' and a['op'] == '*' and strip(a['e']).get('k') == 'var' and strip(a['e'])['name'] in pn and pn[strip(a['e'])['name']].count('*') >= 2:
                     kind = 'outparam'
                 if not kind:
